@@ -177,6 +177,13 @@ var concJobs = []job{
 	{"v2", 'T', "AV:L/AC:H/Au:M/C:N/I:N/A:P/E:POC/RL:OF/RC:UC"},
 	{"v2", 'T', "AV:L/AC:H/AC:H/Au:M/C:N/I:N/A:P"},
 	{"v2", 'B', "AV:N/AC:L/Au:N/C:P/I:P/A:C"},
+	// shared objects whose levels disagree as much as they can: requirements that change the adjusted impact (v2), a Modified
+	// Scope different from the Scope with scope-dependent Privileges Required and Modified metrics that override (v3)
+	{"v2", 'E', "AV:N/AC:L/Au:N/C:P/I:P/A:C/E:F/RL:OF/RC:C/CDP:LM/TD:H/CR:H/IR:L/AR:M"},
+	{"v2", 'E', "AV:L/AC:M/Au:S/C:C/I:N/A:P/CDP:ND/TD:M/CR:L/IR:H/AR:H"},
+	{"v3", 'E', "CVSS:3.1/AV:N/AC:L/PR:H/UI:N/S:U/C:H/I:L/A:N/MS:C"},
+	{"v3", 'E', "CVSS:3.0/AV:L/AC:H/PR:L/UI:R/S:C/C:L/I:H/A:H/E:P/RL:W/RC:R/CR:L/IR:H/AR:M/MAV:N/MPR:N/MS:U/MC:H/MA:N"},
+	{"v3", 'T', "CVSS:3.0/AV:N/AC:L/PR:N/UI:N/S:C/C:H/I:H/A:H/E:U/RL:O/RC:U"},
 	// every error path of every decoder kind runs concurrently too: well-formed but incomplete vectors (the error comes from
 	// the closing completeness check), unsupported metrics (the deferred error), other versions, v2 group and order defects
 	{"v3", 'B', "CVSS:3.1/AV:N/AC:L/PR:N/UI:N/S:U/C:H/I:H"},
@@ -329,8 +336,13 @@ func cmdConcStress(args []string) {
 			if h.lvl == 'B' {
 				return "n/a"
 			}
-			r := h.view('B').query("Score")
-			return fmt.Sprintf("B.Score=%d", r.Sc)
+			via := byte('B')
+			if h.lvl == 'E' && o.b%2 == 1 {
+				via = 'T'
+			}
+			q := []string{"Score", "Severity", "Encode"}[(o.b/2)%3]
+			r := h.view(via).query(q)
+			return fmt.Sprintf("%c.%s=%v/%s/%d/%s", via, q, r.Err, r.Str, r.Sc, r.Sev)
 		case "report":
 			h := shared[o.a]
 			if h.fam != "v3" {
